@@ -169,6 +169,13 @@ def c20_jobs(tier, seed):
     # spelling options and times
     J('custom delimiters and tag names', opts=dict(base, **{'delimiter-start': ['/* <'], 'delimiter-end': ['> */'], 'time-limited-tag-name': ['tl'],
                                                              'removal-marker-tag-name': ['rm'], 'removal-marker-target-name': ['y']}), tz_list=tzs)
+    # other spellings given on the command line reach the library unchanged (backslashes, regex-special characters, identical delimiters, non-ASCII names)
+    for ds_, de_, tl_, rm_ in (('\\(', '\\)', 'time-limited', 'removal-marker'), ('\\[', '\\]', 'tl', 'rm'), ('%%', '%%', 'until', 'flag'), ('「', '」', '期限', '削除'),
+                               ('(*', '*)', 't-é', 'm.*'), ('\\\\', '\\\\', 't', 'm'), ('$(', ')', 'a|b', '[m]'), ('<!--\\t<', '>-->', 't', 'm')):
+        for mname, mode in (('clean', {}), ('list-all-json', {'list-all': True, 'list-json': True})):
+            J(f'spelling: delimiters {ds_!r} {de_!r} names {tl_!r} {rm_!r} mode={mname}',
+              opts=dict(base, **{'delimiter-start': [ds_], 'delimiter-end': [de_], 'time-limited-tag-name': [tl_], 'removal-marker-tag-name': [rm_],
+                                  'removal-marker-target-name': ['y']}, **mode))
     for t in TIMES:
         for off in ('+00:00', '+09:00', '-0800'):
             J(f'current={t} offset={off}', opts={'time-limited-current': [t], 'time-limited-time-offset': [off], 'filename': ['in.txt']}, tz_list=tzs)
